@@ -81,7 +81,7 @@ deriving DecidableEq, Repr, Inhabited
 
 /-- `bool(f)` for a float: only `0.0` and `-0.0` are falsy (NaN is truthy). -/
 def PyFloat.truthy : PyFloat → Bool
-  | .fin r => !(r == "0.0" || r == "-0.0")
+  | .fin r => !(r.toList == ['0', '.', '0'] || r.toList == ['-', '0', '.', '0'])
   | _ => true
 
 /-- Python truthiness, as used by `a or b`. -/
@@ -261,12 +261,10 @@ def isCode (c : Char) : Bool := c.isDigit || c.isUpper
 
 /-- `([0-9A-Z]{5})\b` anchored at the head of the list (the leading `\b` is the caller's business):
 five code characters followed by the end of the string or a non-word character. -/
-def wordMatchHere : List Char → Option (List Char)
-  | a :: b :: c :: d :: e :: rest =>
-    if isCode a && isCode b && isCode c && isCode d && isCode e
-        && (match rest with | [] => true | x :: _ => !isWord x)
-    then some [a, b, c, d, e] else none
-  | _ => none
+def wordMatchHere (s : List Char) : Option (List Char) :=
+  let m := s.take 5
+  if m.length = 5 ∧ m.all isCode = true ∧ (s.drop 5).head?.all (fun x => !isWord x) = true
+  then some m else none
 
 /-- `re.compile(r"\b([0-9A-Z]{5})\b").search(s)` → `group(1)`; leftmost match.  `prevWord` says
 whether the character before the current position is a word character (`false` at the start).
@@ -280,10 +278,10 @@ def searchWord (prevWord : Bool) : List Char → Option (List Char)
     | none => searchWord (isWord c) cs
 
 /-- `\[([0-9A-Z]{5})\]` anchored at the head of the list. -/
-def bracketMatchHere : List Char → Option (List Char)
-  | '[' :: a :: b :: c :: d :: e :: ']' :: _ =>
-    if isCode a && isCode b && isCode c && isCode d && isCode e then some [a, b, c, d, e] else none
-  | _ => none
+def bracketMatchHere (s : List Char) : Option (List Char) :=
+  let m := (s.drop 1).take 5
+  if s.head? = some '[' ∧ m.length = 5 ∧ m.all isCode = true ∧ (s.drop 6).head? = some ']'
+  then some m else none
 
 /-- `re.compile(r"\[([0-9A-Z]{5})\]").search(s)` → `group(1)`; leftmost match. -/
 def searchBracket : List Char → Option (List Char)
@@ -457,17 +455,17 @@ def marker (e : PyExc) : Option EClass :=
   else if e.isServer then some .serverError
   else none
 
-/-- rows common to `default_classifier` and `http_classifier` -/
+/-- rows common to `default_classifier` and `http_classifier`; "5xx" is read as "the hundreds
+digit is 5" (`/` is floor division, as Python's `//`) -/
 def statusRow (z : Int) : Option EClass :=
-  match z with
-  | 401 => some .auth
-  | 403 => some .permission
-  | 400 => some .permanent
-  | 404 => some .permanent
-  | 409 => some .concurrency
-  | 408 => some .transient
-  | 429 => some .rateLimit
-  | _ => if 500 ≤ z ∧ z ≤ 599 then some .serverError else none
+  if z / 100 = 5 then some .serverError
+  else if z = 429 then some .rateLimit
+  else if z = 409 then some .concurrency
+  else if z = 408 then some .transient
+  else if z = 404 ∨ z = 400 then some .permanent
+  else if z = 403 then some .permission
+  else if z = 401 then some .auth
+  else none
 
 /-- `default_classifier` also documents 422 -/
 def defaultRow (z : Int) : Option EClass := if z = 422 then some .permanent else statusRow z
